@@ -377,11 +377,13 @@ func runScenario(t *testing.T, sc *scenario) (res result) {
 				defer wg.Done()
 				time.Sleep(time.Duration(at) * time.Microsecond)
 				for _, c := range sw.ConnsToPeer(remote) {
-					mu.Lock()
-					closedAt[c.ID()] = clock
-					mu.Unlock()
 					c.Close()
-					add(ev{Kind: "close", Caller: -1, Info: c.ID()})
+					// stamped when Close has RETURNED: only then is "closed before the call was made" a fact
+					// (a call made while Close is still running is concurrent with it and may get the conn)
+					t := add(ev{Kind: "close", Caller: -1, Info: c.ID()})
+					mu.Lock()
+					closedAt[c.ID()] = t
+					mu.Unlock()
 				}
 			}()
 		}
